@@ -26,6 +26,7 @@ def thresholds(tier):
        "designs_with_pairs": 100, "rejections_checked": 16, "greenlet_orderings_checked": 2000, "greenlet_designs": 60, "explicit_constraints_checked": 2000}
   if tier == "thorough":
     t = {k: v * 15 for k, v in t.items()}
+    t["rejections_checked"] = 100          # the rejection stream has a fixed size per shard
   return t
 
 
